@@ -430,6 +430,21 @@ func (P) Generate(g *hx.Gen) {
 		ops = append(ops, encOp(r, v, wt))
 		if b, ok := safeEncode(r, u, v, wt && r.Pre != nil); ok {
 			ops = append(ops, decOp(r, b, wt, true))
+			// the same bytes through the io.Reader entry points: unlimited, limit = len, limit > len (all must round-trip),
+			// and a limit that cuts the input (must be an error, never a panic)
+			ops = append(ops, rdecOp(r, b, wt, "u", randRk(g))+" rt=1")
+			if len(b) > 0 {
+				switch g.Rng.Intn(3) {
+				case 0:
+					ops = append(ops, rdecOp(r, b, wt, fmt.Sprint(len(b)), randRk(g))+" rt=1")
+				case 1:
+					ops = append(ops, rdecOp(r, b, wt, fmt.Sprint(len(b)+1+g.Rng.Intn(2000)), randRk(g))+" rt=1")
+				default:
+					if len(b) > 1 {
+						ops = append(ops, rdecOp(r, b, wt, fmt.Sprint(1+g.Rng.Intn(len(b)-1)), randRk(g)))
+					}
+				}
+			}
 			if len(b) < 4096 {
 				corpus = append(corpus, b)
 				corpusRoot = append(corpusRoot, r)
@@ -485,6 +500,15 @@ func (P) Generate(g *hx.Gen) {
 		derived := false
 		strict := false
 		switch c := g.Rng.Intn(24); {
+		case c == 23 && len(corpus) > 0: // a nested item announcing more than its list holds, outer sizes consistent
+			i := g.Rng.Intn(len(corpus))
+			r = corpusRoot[i]
+			var ok bool
+			b, ok = nestedOversize(g, corpus[i])
+			if !ok {
+				continue
+			}
+			kind, derived = "nested-oversize", true
 		case c >= 20 && len(corpus) > 0: // exactly one item re-encoded non-canonically, all sizes consistent
 			i := g.Rng.Intn(len(corpus))
 			r = corpusRoot[i]
@@ -548,6 +572,10 @@ func (P) Generate(g *hx.Gen) {
 		if strict {
 			wt = false
 			ops = header(r, "fuzz", "noncanon")
+		}
+		ops = append(ops, rdecOp(r, b, wt, randLim(g, len(b)), randRk(g)))
+		if kind == "nested-oversize" || kind == "huge-size" {
+			ops = append(ops, rdecOp(r, b, wt, "u", "r"), rdecOp(r, b, wt, "u", "b"), rdecOp(r, b, wt, fmt.Sprint(len(b)+1+g.Rng.Intn(100)), randRk(g)))
 		}
 		ops = append(ops, decOp(r, b, wt, false))
 		g.Count("fuzz-kind:" + kind)
